@@ -90,15 +90,20 @@ func propBalances(t *rapid.T) {
 		MeltingSettings: mint.MeltMethodSettings{MaxAmount: rapid.SampledFrom([]uint64{0, 0, 1, 50, 300}).Draw(t, "melt_max")},
 	}
 	m := hist.Run(t, cfg, hist.Options{
-		Weights:   hist.Weights(map[string]int{"mintquote_boundary": 6, "overlap_quotes": 2, "meltquote_boundary": 3, "swap_adv": 1, "restart": 1, "rotate": 1, "melt": 5, "meltquote": 3, "checkstate": 0, "deliver": 0, "pollmint": 0}),
+		Weights:   hist.Weights(map[string]int{"mintquote_boundary": 6, "overlap_quotes": 2, "mint_fault": 2, "swap_fault": 2, "meltquote_boundary": 3, "swap_adv": 1, "restart": 1, "rotate": 1, "melt": 5, "meltquote": 3, "checkstate": 0, "deliver": 0, "pollmint": 0}),
 		Owns:      []string{"C16"},
 		PropID:    "C16",
 		AfterStep: func(m *hist.Machine, op string) { balancesExact(m, op); m.Enforce(op) },
+		// a request refused on a storage fault handed out nothing: the totals are checked before restore is asked
+		AfterRefusal: func(m *hist.Machine, op string) {
+			m.Count["totals_checked_after_refused_faulted_request"]++
+			balancesExact(m, "refused "+op)
+		},
 	})
 	if m.Count["boundary_request"] > 0 || m.Count["balance_after_fee_swap_and_melt"] > 0 {
 		rec.NonTrivial(fmt.Sprintf("%+v|%s", cfg.Limits, strings.Join(m.Trace, "|")))
 		rec.ClassN("boundary_requests", m.Count["boundary_request"])
-		for _, k := range []string{"info_disabled_true", "balance_above_maximum", "balance_after_fee_swap_and_melt", "rotation", "restart"} {
+		for _, k := range []string{"info_disabled_true", "balance_above_maximum", "totals_checked_after_refused_faulted_request", "balance_after_fee_swap_and_melt", "rotation", "restart"} {
 			if m.Count[k] > 0 {
 				rec.Class("history_with_" + k)
 			}
